@@ -69,6 +69,10 @@ type genericHelper struct {
 }
 
 func (g *genericHelper) forMapInput() *genericHelper {
+	if g == nil {
+		// a pass-through node with an input key whose own type has not been inferred yet: its input side is known
+		g = &genericHelper{}
+	}
 	return &genericHelper{
 		outputStreamFilter:          g.outputStreamFilter,
 		outputConverter:             g.outputConverter,
@@ -93,6 +97,10 @@ func (g *genericHelper) forMapInput() *genericHelper {
 }
 
 func (g *genericHelper) forMapOutput() *genericHelper {
+	if g == nil {
+		// a pass-through node with an output key whose own type has not been inferred yet: its output side is known
+		g = &genericHelper{}
+	}
 	return &genericHelper{
 		inputStreamFilter:          g.inputStreamFilter,
 		inputConverter:             g.inputConverter,
